@@ -532,6 +532,8 @@ def run(ctx):
     r2(ctx)
     r3(ctx)
     r4(ctx)
+    # R6 BUILD-PARITY: the iterator's mutators do the same with and without debug assertions
+    debug_parity(ctx, 'C14.R6', [NEXT, SETMASK, MG + '::remove_mask', MG + '::remove_move'])
     # R5 ENTRIES (= C01.R2-R4): what the iterator yields is what the list builder pushed: every piece kind dispatched with
     # the pin and check masks, promotion entries flagged exactly on the seventh rank
     from . import c01
